@@ -392,7 +392,8 @@ func c18Oracle(before, after c18Snap, roots []c18Root) (viol []string, d c18Diff
 					switch {
 					case !nameOK && exists && idx < c18Edge(r.Size, lvl):
 						d.OddKept++
-					case exists && fn.Kind == 'f' && fn.Size > 0 && idx >= c18Edge(r.Size, lvl):
+					case exists && idx >= c18Edge(r.Size, lvl):
+						_ = fn
 						d.EdgeKeptWithFull++
 					case idx < c18Edge(r.Size, lvl):
 						d.OrphanKept++
